@@ -123,3 +123,32 @@ Definition try_u8 (v : Z) : outcome Z := if (0 <=? v) && (v <=? 255) then Ok v e
 Definition encoding_write (e : encoding) : outcome (list Z) :=
   n <- try_u8 (len (snd e)) ;;
   Ok (write_prim PU8 (fst e) ++ write_prim PU8 n ++ write_recs (encoding_ty (fst e)) (snd e)).
+
+(* CustomCharset::sid_to_gid / glyph_id_for_sid_in_ranges (as repaired: the glyph id is accumulated in
+   32 bits with checked additions and converted with u16::try_from, so a range list that reaches past
+   glyph 65535 gives None instead of an overflow) *)
+Fixpoint sid_in_ranges (recs : list (list Z)) (glyph_id sid : Z) : option Z :=
+  match recs with
+  | [] => None
+  | r :: rest =>
+      let first := nthZ r 0 in
+      let last := first + nthZ r 1 in
+      if (first <=? sid) && (sid <=? last) then
+        let g := glyph_id + (sid - first) in
+        if g <=? 65535 then Some g else None        (* checked_add, then u16::try_from *)
+      else
+        let g := glyph_id + (nthZ r 1 + 1) in
+        if g <=? 4294967295 then sid_in_ranges rest g sid else None
+  end.
+Fixpoint sid_position (l : list (list Z)) (sid i : Z) : option Z :=
+  match l with
+  | [] => None
+  | r :: rest => if hd 0 r =? sid then Some i else sid_position rest sid (i + 1)
+  end.
+Definition charset_sid_to_gid (cs : charset) (sid : Z) : option Z :=
+  if fst cs =? 0 then
+    match sid_position (snd cs) sid 0 with
+    | Some n => if n + 1 <=? 65535 then Some (n + 1) else None
+    | None => None
+    end
+  else sid_in_ranges (snd cs) 1 sid.
